@@ -150,6 +150,61 @@ fn export<S: flacenc::bitsink::Bits + Copy>(sink: &MemSink<S>) -> Vec<u8> {
     out
 }
 
+/// Direct oracle: the ideal MSB-first bit string of an op sequence, computed without the crate.
+pub fn ideal_bits(ops: &[Op]) -> Vec<bool> {
+    let mut bits: Vec<bool> = vec![];
+    let push_msb = |bits: &mut Vec<bool>, v: u64, w: usize, n: usize| {
+        for i in 0..n {
+            bits.push((v >> (w - 1 - i)) & 1 == 1);
+        }
+    };
+    for op in ops {
+        match op {
+            Op::Align => {
+                while bits.len() % 8 != 0 {
+                    bits.push(false);
+                }
+            }
+            Op::Lsbs(_, v, n) => {
+                for i in 0..*n {
+                    bits.push((v >> (n - 1 - i)) & 1 == 1);
+                }
+            }
+            Op::Msbs(w, v, n) => push_msb(&mut bits, *v, *w as usize, *n),
+            Op::Write(w, v) => push_msb(&mut bits, *v, *w as usize, *w as usize),
+            Op::Twoc(v, n) => {
+                for i in 0..*n {
+                    bits.push(((*v as u64) >> (n - 1 - i)) & 1 == 1);
+                }
+            }
+            Op::Zeros(n) => {
+                for _ in 0..*n {
+                    bits.push(false);
+                }
+            }
+            Op::Bytes(b) => {
+                while bits.len() % 8 != 0 {
+                    bits.push(false);
+                }
+                for x in b {
+                    push_msb(&mut bits, u64::from(*x), 8, 8);
+                }
+            }
+        }
+    }
+    bits
+}
+
+fn pack(bits: &[bool]) -> Vec<u8> {
+    let mut out = vec![0u8; (bits.len() + 7) / 8];
+    for (i, b) in bits.iter().enumerate() {
+        if *b {
+            out[i / 8] |= 0x80 >> (i % 8);
+        }
+    }
+    out
+}
+
 pub fn run_record(id: &str, kind: &str, ops: &[Op]) -> String {
     let ops_s: Vec<String> = ops.iter().map(Op::render).collect();
     let head = format!("sink id={id} kind={kind} ops={}", if ops_s.is_empty() { "-".into() } else { ops_s.join(",") });
@@ -178,9 +233,19 @@ pub fn run_record(id: &str, kind: &str, ops: &[Op]) -> String {
             (s.bits.len(), s.packed(), s.ops.join(","))
         }),
     };
+    let ideal = ideal_bits(ops);
     match res {
-        Ok((len, bytes, raw)) => format!("{head} impl_len={len} impl_bytes={} impl_raw={raw} impl_panic=0", hex(&bytes)),
-        Err(m) => format!("{head} impl_len=0 impl_bytes=- impl_raw=- impl_panic=1 msg={m}"),
+        Ok((len, bytes, raw)) => {
+            let oracle = if len != ideal.len() {
+                format!("fail:len_{}_expected_{}", len, ideal.len())
+            } else if bytes != pack(&ideal) {
+                format!("fail:bits_{}_expected_{}", hex(&bytes), hex(&pack(&ideal)))
+            } else {
+                "ok".to_string()
+            };
+            format!("{head} impl_len={len} impl_bytes={} impl_raw={raw} impl_panic=0 oracle={oracle}", hex(&bytes))
+        }
+        Err(m) => format!("{head} impl_len=0 impl_bytes=- impl_raw=- impl_panic=1 msg={m} oracle=fail:panic"),
     }
 }
 
